@@ -959,6 +959,258 @@ def check_bond_history(ctx, seq):
 
 
 # =================================================================================================
+# SH : multi-molecule texts whose blocks are DIFFERENT molecules (equal or different size):
+#      per-stream / per-block state of the reader must not leak from one block into the next
+#      (name, elements, labels, coordinates, charges, bond list, charge type of the block)
+# =================================================================================================
+MM_ALL = [f"{c}.{f}" for c in ("Molecule", "Structure") for f in ("loads_all_mol2", "load_all_mol2[StringIO]", "load_all_mol2[path]", "yield_from_mol2")]
+MM_FIRST = [f"{c}.{f}" for c in ("Molecule", "Structure") for f in ("loads_mol2", "load_mol2[StringIO]", "load_mol2[path]")]
+MM_SOURCES = ["molli:Molecule.dumps_mol2", "molli:Structure.dump_mol2", "harness:USER_CHARGES", "harness:NO_CHARGES/USER_CHARGES", "harness:USER_CHARGES/NO_CHARGES"]
+BOND_TOKEN = {"Single": "1", "Double": "2", "Triple": "3", "Aromatic": "ar", "Amide": "am", "Dummy": "du", "Unknown": "un", "NotConnected": "nc"}
+
+
+def mm_read(entry, text, tmp):
+    cname, fn = entry.split(".", 1)
+    if fn == "yield_from_mol2":
+        return list(RCLASS[cname].yield_from_mol2(io.StringIO(text)))
+    return do_read(entry, text, tmp)
+
+
+def mm_block_is_no_charges(source, bi):
+    if source == "harness:NO_CHARGES/USER_CHARGES":
+        return bi % 2 == 0
+    if source == "harness:USER_CHARGES/NO_CHARGES":
+        return bi % 2 == 1
+    return False
+
+
+def mm_text(blocks, source, tmp):
+    """-> (text, expected blocks as pseudo specs)"""
+    exp = []
+    if source.startswith("molli:"):
+        kind = "M" if "Molecule" in source else "S"
+        parts = []
+        for b in blocks:
+            spec = mkspec(kind, b["name"], b["atoms"], [{"xyz": b["xyz"], "q": b["q"]}], b["bonds"])
+            parts.append(do_write(build(spec), "dumps_mol2" if kind == "M" else "dump_mol2[StringIO]", tmp))
+            exp.append(spec)
+        return "".join(parts), exp
+    out = []
+    for bi, b in enumerate(blocks):
+        noq = mm_block_is_no_charges(source, bi)
+        n = len(b["atoms"])
+        out.append(f"@<TRIPOS>MOLECULE\n{b['name']}\n{n} {len(b['bonds'])} 0 0 0\nSMALL\n{'NO_CHARGES' if noq else 'USER_CHARGES'}\n\n@<TRIPOS>ATOM\n")
+        atoms = []
+        for i, ((z, lab, t, g), p, q) in enumerate(zip(b["atoms"], b["xyz"], b["q"])):
+            sym = Element(z).name
+            lab = lab or f"{sym}{i + 1}"
+            atoms.append([z, lab, t, g])
+            out.append(f"{i + 1:>6} {lab} {p[0]:.6f} {p[1]:.6f} {p[2]:.6f} {sym} 1 UNL1 {0.0 if noq else q:.4f}\n")
+        out.append("@<TRIPOS>BOND\n")
+        for k, (i, j, bt) in enumerate(b["bonds"]):
+            out.append(f"{k + 1:>6} {i + 1:>6} {j + 1:>6} {BOND_TOKEN[BondType(bt).name]}\n")
+        exp.append(mkspec("M", b["name"], atoms, [{"xyz": b["xyz"], "q": [0.0] * n if noq else b["q"]}], b["bonds"]))
+    return "".join(out), exp
+
+
+_MM_CLAUSE = {"name-changed": "name", "atom-count-changed": "atom-count", "element-changed": "elements", "atoms-reordered": "elements", "label-changed": "labels"}
+
+
+def mm_clause(sym):
+    if sym in _MM_CLAUSE:
+        return _MM_CLAUSE[sym]
+    for pre in ("coords", "charges", "bond"):
+        if sym.startswith(pre):
+            return pre if pre != "bond" else "bonds"
+    return sym
+
+
+def mm_cmp(exp, m, want_q):
+    return cmp_frame(exp, 0, m.name, m.atoms, m.coords, getattr(m, "atomic_charges", None), m.bonds, want_q)
+
+
+def check_multimol(ctx, blocks):
+    """blocks: [{"name", "atoms": [[Z,label,atype,geom]..], "xyz", "q", "bonds"}..] - each its own molecule"""
+    tmp = Path(ctx.scratch) / f"c07-{os.getpid()}-mm.mol2"
+    tmpw = Path(ctx.scratch) / f"c07-{os.getpid()}-mmw.mol2"
+    k = len(blocks)
+    case = {"layer": "SH", "blocks": blocks}
+    ctx.count(evaluations=1, states=1, traces=1)
+    if any(blocks[i] != blocks[i - 1] for i in range(1, k)):
+        ctx.nontrivial(("SH", digest(blocks)))
+    cells, detail = {}, {}
+
+    def add(sym, src, r, d):
+        cells.setdefault(sym, set()).add((src, r))
+        detail.setdefault((sym, src, r), d)
+
+    texts = []
+    for src in MM_SOURCES:
+        ctx.count(transitions=k if src.startswith("molli:") else 0)
+        try:
+            text, exp = mm_text(blocks, src, tmpw)
+        except HarnessError:
+            raise
+        except Exception as e:
+            add(f"write-raised-{exc(e)}", src, "-", f"{exc(e)}: {e}")
+            continue
+        texts.append(text)
+        tmp.write_text(text, encoding="utf-8", newline="")
+        for r in MM_ALL + MM_FIRST:
+            ctx.count(transitions=1)
+            cname = r.split(".")[0]
+            want_q = cname == "Molecule" and src != "molli:Structure.dump_mol2"
+            try:
+                res = mm_read(r, text, tmp)
+            except Exception as e:
+                add(f"read-raised-{exc(e)}", src, r, f"{exc(e)}: {e}")
+                continue
+            if r in MM_FIRST:
+                if not isinstance(res, RCLASS[cname]):
+                    add("wrong-result-type", src, r, type(res).__name__)
+                    continue
+                sy = mm_cmp(exp[0], res, want_q)
+                if sy:
+                    later = [j for j in range(1, k) if blocks[j] != blocks[0] and not mm_cmp(exp[j], res, want_q)]
+                    if later:
+                        add("first-molecule-reader-returned-a-later-molecule", src, r, f"molecule {later[0]} of {k} returned instead of molecule 0")
+                    else:
+                        for s_, d in sy:
+                            add(s_, src, r, d)
+                continue
+            if not isinstance(res, list) or any(not isinstance(m, RCLASS[cname]) for m in res):
+                add("wrong-result-type", src, r, type(res).__name__)
+                continue
+            if len(res) != k:
+                add("molecule-count-changed", src, r, f"{len(res)} molecules read, {k} written")
+                continue
+            for bi in range(k):
+                sy = mm_cmp(exp[bi], res[bi], want_q)
+                if not sy:
+                    continue
+                mine = {mm_clause(s_) for s_, _ in sy}
+                leaked = set()
+                for j in range(bi):
+                    theirs = {mm_clause(s_) for s_, _ in mm_cmp(exp[j], res[bi], want_q)}
+                    if "atom-count" not in theirs:
+                        leaked |= mine - theirs
+                for s_, d in sy:
+                    c = mm_clause(s_)
+                    if c in leaked:
+                        add(f"molecule-has-the-{c}-of-an-earlier-molecule", src, r, f"molecule {bi} of {k}: {d}")
+                    else:
+                        add(s_, src, r, f"molecule {bi} of {k}: {d}")
+    ctx.outcome(("SH", digest(texts), tuple(sorted(cells))))
+    clear_bond_cache()
+
+    def rdesc(rs):
+        rs = set(rs)
+        if rs == set(MM_ALL + MM_FIRST):
+            return "*"
+        if rs == set(MM_ALL):
+            return "all-molecule-readers"
+        if rs == set(MM_FIRST):
+            return "first-molecule-readers"
+        for c in ("Molecule", "Structure"):
+            if rs == {x for x in MM_ALL if x.startswith(c + ".")}:
+                return f"{c}:all-molecule-readers"
+        return ",".join(sorted(rs))
+
+    def sdesc(ss):
+        ss = set(ss)
+        if ss == set(MM_SOURCES):
+            return "*"
+        if ss == {x for x in MM_SOURCES if x.startswith("harness:")}:
+            return "harness:*"
+        if ss == {x for x in MM_SOURCES if x.startswith("molli:")}:
+            return "molli:*"
+        # the two mixed-charge-type sources differ only in which block comes first: one input class
+        names = ["harness:mixed-charge-types" if "/" in x else x for x in MM_SOURCES if x in ss]
+        return ",".join(dict.fromkeys(names))
+
+    for sym in sorted(cells):
+        cs = cells[sym]
+        srcs = sorted({a for a, _ in cs}, key=MM_SOURCES.index)
+        rs = sorted({b for _, b in cs})
+        groups = [(srcs, rs)] if cs == set(itertools.product(srcs, rs)) else [([a], sorted(b for a2, b in cs if a2 == a)) for a in srcs]
+        for gs, gr in groups:
+            ctx.violation(
+                f"rt-multi|{sym}|src={sdesc(gs)}|r={rdesc(gr)}",
+                f"{k}-molecule mol2 text of different molecules ({gs[0]}), read by {gr[0]}: {detail[(sym, gs[0], gr[0])]}",
+                case,
+                repro=repro_multimol(blocks, gs[0], gr[0]),
+            )
+
+
+def repro_multimol(blocks, src, r):
+    if src.startswith("molli:"):
+        src = "harness:USER_CHARGES"
+    text, _ = mm_text(blocks, src, None)
+    cname, fn = r.split(".", 1)
+    base = fn.split("[")[0]
+    arg = "text" if base.startswith("loads") else "io.StringIO(text)"
+    return (
+        "import io, molli as ml\n"
+        f"text = {text!r}\n"
+        f"r = ml.{cname}.{base}({arg})\n"
+        "r = [r] if hasattr(r, 'atoms') else list(r)\n"
+        "for m in r: print(m.name, [(a.element.name, a.label) for a in m.atoms], m.coords.tolist(), getattr(m, 'atomic_charges', None), "
+        "[(m.atoms.index(b.a1), m.atoms.index(b.a2), b.btype.name) for b in m.bonds])"
+    )
+
+
+def mm_alphabet(seed, thorough):
+    """molecules of EQUAL size that differ in name, elements, labels, coordinates, charges and bond list"""
+    H, C, N, O = 1, 6, 7, 8
+    S, D, T, AR = BT["Single"], BT["Double"], BT["Triple"], BT["Aromatic"]
+    raw = {
+        1: [([H], ["H1"], []), ([C], [None], []), ([O], ["Ox"], [])],
+        2: [
+            ([H, C], ["H1", "C2"], [(0, 1, S)]),
+            ([C, H], ["Ca", "Hb"], [(1, 0, D)]),
+            ([N, O], ["N", "O"], []),
+            ([O, O], [None, None], [(0, 1, AR)]),
+        ],
+        3: [
+            ([H, C, N], ["H1", "C2", "N3"], [(0, 1, S), (1, 2, T)]),
+            ([H, N, C], ["H1", "N2", "C3"], [(0, 1, S), (2, 1, T)]),
+            ([N, C, H], ["Nx", "Cy", "Hz"], [(1, 0, T), (1, 2, S)]),
+            ([O, H, H], [None, "Ha", "Hb"], [(0, 1, S), (0, 2, S)]),
+            ([C, O, O], ["C", "O1", "O2"], []),
+        ]
+        + ([([H, O, H], ["H1", "O2", "H3"], [(1, 0, S), (2, 1, S)]), ([O, C, O], ["Oa", "Cb", "Oc"], [(0, 1, D), (1, 2, D), (0, 2, AR)])] if thorough else []),
+    }
+    out, fid = {}, 0
+    for n in (1, 2, 3):
+        out[n] = []
+        for els, labs, bonds in rot(raw[n], seed):
+            fid += 1
+            out[n].append(
+                {
+                    "name": f"mol{fid}",
+                    "atoms": [[z, lab, REG, UNKG] for z, lab in zip(els, labs)],
+                    "xyz": [[fid * 1.5 + a * 0.25 + seed * 0.125, -(fid * 2.0) + a, 0.001 * fid * (a + 1)] for a in range(n)],
+                    "q": [0.125 * (((fid + 2 * a + seed) % 7) - 3) or 0.625 for a in range(n)],
+                    "bonds": [list(b) for b in bonds],
+                }
+            )
+    return out
+
+
+def gen_SH(seed, thorough):
+    A = mm_alphabet(seed, thorough)
+    for n in (1, 2, 3):
+        for L in (2, 3):
+            for seq in itertools.product(range(len(A[n])), repeat=L):
+                yield [A[n][i] for i in seq]
+    mixed = [A[1][0], A[2][0], A[2][1], A[3][0], A[3][1]]
+    for L in (2, 3):
+        for seq in itertools.product(range(len(mixed)), repeat=L):
+            if len({len(mixed[i]["atoms"]) for i in seq}) > 1:
+                yield [mixed[i] for i in seq]
+
+
+# =================================================================================================
 # partitioned drivers
 # =================================================================================================
 def _part(ctx, part):
@@ -972,6 +1224,13 @@ def _part(ctx, part):
             ctx.add_note(f"cases_{layer}")
             if idx == i == 0 or (idx == i == 1):
                 ctx.sample({"layer": layer, "spec": spec})
+        return
+    if layer == "SH":
+        for idx, blocks in enumerate(gen_SH(seed, thorough)):
+            if idx % nparts != i:
+                continue
+            check_multimol(ctx, blocks)
+            ctx.add_note("cases_SH")
         return
     if layer == "TA":
         trs = rot(all_triples(), seed * 7919)
@@ -1041,6 +1300,9 @@ def run(ctx):
         "fixed point = the text of the first write is reproduced byte for byte by writing what the same class read from it",
         "loads_mol2/load_mol2 of a multi-molecule text return the first molecule (documented behaviour); loads_all/ConformerEnsemble return all, in order",
         "an ensemble with 0 conformers has no mol2 text and is out of scope",
+        "layer SH (multi-molecule texts of DIFFERENT molecules): texts are concatenated molli dumps of each molecule and harness-formatted texts "
+        "(also with NO_CHARGES and USER_CHARGES blocks mixed; a NO_CHARGES block carries 0.0 in its charge column and must give zero charges); every "
+        "molecule must come back with its own name, elements, labels, coordinates, charges and bond list",
         "Bond.set_mol2_type histories: a reader accepts a token only if the bond carries it afterwards (needed for 'every token is accepted by its own reader')",
     ]
     nE, nT, nG, nB = len(Element), len(AtomType), len(AtomGeom), len(BondType)
@@ -1065,7 +1327,7 @@ def run(ctx):
     ctx.note("property_text_says_triples", "119 x 22 x 17; the tree under test has %d x %d x %d" % (nE, nT, nG))
     np_ = 16 if thorough else 8
     parts = []
-    for layer in ("TA", "TB", "BL", "S0", "TC", "S4", "S2", "S1", "S3"):
+    for layer in ("TA", "TB", "BL", "S0", "TC", "S4", "SH", "S2", "S1", "S3"):
         n = 1 if layer in ("S0",) else np_ * (4 if layer in ("S1", "S3", "S2") else 1)
         parts += [(layer, i, n) for i in range(n)]
     if thorough:
@@ -1082,6 +1344,20 @@ def replay(ctx, case):
     layer = case["layer"]
     if layer == "S":
         check_spec(ctx, normspec(case["spec"]))
+    elif layer == "SH":
+        check_multimol(
+            ctx,
+            [
+                {
+                    "name": b["name"],
+                    "atoms": [[int(a[0]), a[1], int(a[2]), int(a[3])] for a in b["atoms"]],
+                    "xyz": [[fl(c) for c in p] for p in b["xyz"]],
+                    "q": [fl(c) for c in b["q"]],
+                    "bonds": [[int(x) for x in bb] for bb in b["bonds"]],
+                }
+                for b in case["blocks"]
+            ],
+        )
     elif layer == "TA":
         check_triple(ctx, tuple(int(x) for x in case["triple"]))
     elif layer == "TB":
